@@ -181,6 +181,10 @@ type stats struct {
 
 var tmpDir string
 
+// builtin is an extra command-line token naming a built-in flag; it must not change which
+// source wins for any field
+var builtin = ""
+
 func runCase(k kindT, pos, syntax, defKind, subset, vset, carrier, spelling, otherSubset int, st *stats) {
 	// sources mentioning the field under test: bit0 cli, bit1 env, bit2 json, bit3 default
 	def := ""
@@ -255,6 +259,9 @@ func runCase(k kindT, pos, syntax, defKind, subset, vset, carrier, spelling, oth
 			os.Setenv("CFG_CONFIG_B64", base64.StdEncoding.EncodeToString(doc))
 		}
 	}
+	if builtin != "" {
+		argv = append([]string{builtin}, argv...)
+	}
 	argv = append(argv, "tail")
 	st.Evals++
 	if err := fs.Parse(argv); err != nil {
@@ -301,6 +308,71 @@ func runCase(k kindT, pos, syntax, defKind, subset, vset, carrier, spelling, oth
 	st.Distinct[fmt.Sprintf("%s|%d|%d|%v", k.name, subset, otherSubset, got)] = true
 }
 
+// runWide: wide but shallow - a configuration with nf fields (sizes around every plausible
+// internal capacity), each field given by a different combination of sources
+func runWide(nf int, st *stats) {
+	var fields []reflect.StructField
+	for i := 0; i < nf; i++ {
+		fields = append(fields, reflect.StructField{Name: fmt.Sprintf("F%d", i), Type: reflect.TypeOf(int(0)), Tag: tag(i%2, fmt.Sprintf("f%d", i), fmt.Sprint(1000+i))})
+	}
+	ptr := reflect.New(reflect.StructOf(fields))
+	fs, err := config.NewFlagSet(ptr.Interface())
+	if err != nil {
+		st.Viols = append(st.Viols, vcommon.Violation{Scenario: "wide", Fingerprint: fmt.Sprintf("wide|%d|newflagset", nf), Message: fmt.Sprintf("C09: NewFlagSet on a struct of %d int fields: %v", nf, err)})
+		return
+	}
+	os.Unsetenv("CFG_CONFIG_B64")
+	doc := map[string]any{}
+	var argv []string
+	want := make([]int, nf)
+	var envSet []string
+	for i := 0; i < nf; i++ {
+		want[i] = 1000 + i // tag default
+		src := i % 8       // bit0 cli, bit1 env, bit2 json
+		if i == 0 || i == nf-1 || i == nf/2 {
+			src = 7
+		}
+		if src&4 != 0 {
+			doc[fmt.Sprintf("F%d", i)] = 3000 + i
+			want[i] = 3000 + i
+		}
+		if src&2 != 0 {
+			e := fmt.Sprintf("CFG_F%d", i)
+			os.Setenv(e, fmt.Sprint(2000+i))
+			envSet = append(envSet, e)
+			want[i] = 2000 + i
+		}
+		if src&1 != 0 {
+			argv = append(argv, fmt.Sprintf("-f%d=%d", i, 4000+i))
+			want[i] = 4000 + i
+		}
+	}
+	defer func() {
+		for _, e := range envSet {
+			os.Unsetenv(e)
+		}
+	}()
+	data, _ := json.Marshal(doc)
+	p := filepath.Join(tmpDir, "wide.json")
+	os.WriteFile(p, data, 0o644)
+	argv = append([]string{"-config", p}, argv...)
+	st.Evals++
+	if err := fs.Parse(argv); err != nil {
+		st.Viols = append(st.Viols, vcommon.Violation{Scenario: "wide", Fingerprint: fmt.Sprintf("wide|%d|parse", nf), Message: fmt.Sprintf("C09: Parse on a struct of %d int fields failed: %v", nf, err)})
+		return
+	}
+	for i := 0; i < nf; i++ {
+		if got := int(ptr.Elem().Field(i).Int()); got != want[i] {
+			if len(st.Viols) < 5 {
+				st.Viols = append(st.Viols, vcommon.Violation{Scenario: "wide", Fingerprint: fmt.Sprintf("wide|%d|field%d", nf, i),
+					Message: fmt.Sprintf("C09: struct of %d int fields: field F%d holds %d, the highest-priority source mentioning it gives %d (sources cli/env/json bits %03b; cli 4000+i, env 2000+i, json 3000+i, default 1000+i)", nf, i, got, want[i], i%8)})
+			}
+			return
+		}
+	}
+	st.Distinct[fmt.Sprintf("wide|%d", nf)] = true
+}
+
 func isNegZero(v any) bool {
 	f, ok := v.(float64)
 	return ok && f == 0 && math.Signbit(f)
@@ -338,6 +410,13 @@ func main() {
 										c++
 										if c%n == i {
 											runCase(k, pos, syntax, 0, subset, vset, carrier, spelling, os2, st)
+											if vset == 0 && spelling == 0 && carrier < 2 {
+												for _, b := range []string{"-help", "--help=true", "-help=false"} {
+													builtin = b
+													runCase(k, pos, syntax, 0, subset, vset, carrier, spelling, os2, st)
+												}
+												builtin = ""
+											}
 										}
 									}
 								}
@@ -345,6 +424,11 @@ func main() {
 						}
 					}
 				}
+			}
+		}
+		if i == 0 {
+			for _, nf := range []int{3, 30, 62, 63, 64, 65, 70, 130, 300} {
+				runWide(nf, st)
 			}
 		}
 		json.NewEncoder(os.Stdout).Encode(st)
